@@ -861,6 +861,7 @@ def _fx(ex, *kids):
 NORMAL = Model(scale=1)
 EXACT = Model(scale=0)
 EXACT_WIDE = Model(scale=0, widen=4)
+NORMAL_WIDE = Model(scale=1, widen=4)   # contains the value of an expression whose folded constants are off by <= 4u, under any conforming float evaluation
 
 
 def slack_interval(d, dabs, mult=16):
